@@ -142,6 +142,22 @@ def line_loop_rules(ctx, rep, cl, require_readlines=False):
             rep.ob(cl + ".stage-order", fn.name, order_ok, "stages on this path run in order %s; fixed order is secrets, IPv6, IPv4, words, AS numbers" % names, w, key=cl + ".stage-order|anonymize_io", nontrivial=(n <= 3))
             if len(names) == 5:
                 full = stages
+    # every branch decision in the loop body is a test of a stage object (or the debug-only comparison of input and output line)
+    foreign = set()
+    for bp in li.body_paths:
+        if not bp.feasible():
+            continue
+        for t, pol in bp.atoms():
+            if t[0] == "boolop":
+                continue
+            if t[0] == "compare" and t[1] == ("is",) and t[2][1] == ("const", None) and t[2][0][0] == "attr" and t[2][0][1] == SELF and t[2][0][2] in {f for fs in STAGE_FIELDS.values() for f in fs}:
+                continue
+            if t[0] == "compare" and t[1] in (("==",), ("!=",)) and linevar in t[2]:
+                continue  # `if line != output_line: logging.debug(...)`
+            foreign.add(show(t)[:100])
+    rep.ob(cl + ".stages-guarded-only-by-own-object", fn.name, not foreign,
+           "conditions in the line loop other than `<stage object> is not None`: %s — whether a stage is applied to a line must not depend on the line's content or on another feature" % sorted(foreign), w,
+           key=cl + ".stages-guarded-only-by-own-object|anonymize_io")
     rep.stat("line_loop_body_paths", n)
     rep.ob(cl + ".body-paths-floor", fn.name, n >= 16, "feasible paths through the loop body: %d (>= 2^4 feature subsets)" % n, w, nontrivial=False)
     # loop-carried dependences: nothing assigned in one iteration is read in the next
